@@ -121,7 +121,7 @@ def lattice_value(rng, fuzzy=False, integer=False):
     return rng.choice([0.0, 0.0, 1.0, -1.0, 0.125, -0.125, 0.5, 2.5, -2.5, 7.75, 64.0, -64.0, rng.randint(-512, 512) / 8.0])
 
 
-PAYLOADS = (0, 1e30, -1e30, -9999, 9999, 5e17)
+PAYLOADS = (0, 1e30, -1e30, -9999, 9999, 5e17, 1.7976931348623157e308, -1.7976931348623157e308)
 
 
 def gen_mask(rng, n, style=None):
@@ -237,14 +237,17 @@ class Outcome(object):
         return type(e).__name__ if e is not None else None
 
 
-def invoke(program, cls_name, result_name, args):
-    """add_command + read .result : the documented API path (validate_params -> clean -> execute)."""
+def invoke(program, cls_name, result_name, args, via_run=False):
+    """add_command + read .result : the documented API path (validate_params -> clean -> execute). via_run: the whole program
+    is run first (Program.run, as the command-line tool does), then the result is read."""
     cls = program.find_command_class(cls_name)
     if cls is None:
         from mpv.core import HarnessProblem
         raise HarnessProblem("command %s not in library" % cls_name)
     try:
         program.add_command(cls, result_name, dict(args))
+        if via_run:
+            program.run()
         return Outcome(value=program.commands[result_name].result)
     except Exception as e:  # judged by the caller
         return Outcome(exc=e)
@@ -298,7 +301,7 @@ def run_cmd(cls_name, inputs, params, fuzzy_inputs=False, libs=CSV_LIBS, program
         args[list_param or "InFieldNames"] = _shared_lists.setdefault(tuple(names), list(names))
     if _calls["n"] % 2:
         args = dict(reversed(list(args.items())))      # the order in which arguments are written does not matter
-    out = invoke(program, cls_name, "Res", args)
+    out = invoke(program, cls_name, "Res", args, via_run=_calls["n"] % 3 == 0)
     return out, program
 
 
